@@ -1,4 +1,5 @@
 import Tickit.Model.RB
+import Tickit.Model.RBSpan
 import Tickit.Model.RBAbs
 import Tickit.Driver.Common
 /-
@@ -334,6 +335,8 @@ def compactAbs (a : AState) : AState :=
 structure St where
   rb : Option RB := none
   abs : Option RBAbs.AState := none
+  /-- `rb->tmpsize`: the size of the scratch area the formatted-text functions use -/
+  tmpsize : Nat := 0
 
 def showRet (r : Option Int) : String :=
   match r with
@@ -352,14 +355,167 @@ def showCellQuery (rb : RB) (l c : Int) : String :=
 def showCells (rb : RB) : String :=
   ";".intercalate ((probe rb.lines rb.cols).map fun (l, c) => showCellQuery rb l c)
 
+
+/-! ### The single-cell and span queries -/
+
+def filler : UInt8 := 0x55
+
+/-- All bytes of the query buffer afterwards (`x`: NULL buffer): what was stored, the terminator, the 0x55 preset. -/
+def showBuffer (buf : Option Nat) (bytes : List UInt8) (term : Bool) : String :=
+  match buf with
+  | none => "x"
+  | some len =>
+    let w := bytes ++ (if term then [0] else [])
+    bytesHex (w ++ List.replicate (len - w.length) filler)
+
+def showLinemask (lm : Nat × Nat × Nat × Nat) : String := s!"{lm.1}.{lm.2.1}.{lm.2.2.1}.{lm.2.2.2}"
+
+/-- `getcell l c LEN` (LEN = −1: NULL buffer). -/
+def showGetcell (rb : RB) (l c len : Int) : String :=
+  let pen := match getCellPen rb l c with
+    | none => "{NULL}"
+    | some p => showPen p
+  let buf : Option Nat := if len < 0 then none else some len.toNat
+  let t := getCellTextQ rb l c buf
+  toString (getCellActive rb l c) ++ pen ++ showLinemask (getCellLinemask rb l c) ++ s!":{t.ret}:" ++ showBuffer buf t.bytes t.term
+
+/-- The pen the harness presets `info->pen` with. -/
+def prefillPen : Pen := { fg := some ⟨9, none⟩, bold := some true }
+
+structure SpanArgs where
+  len : Nat
+  info : Bool
+  infoPen : Bool
+  buf : Bool
+
+def spanArgs (len mode : Nat) : SpanArgs := ⟨len, mode % 2 = 1, (mode / 2) % 2 = 1, (mode / 4) % 2 = 1⟩
+
+/-- The harness' line for a `getspan`: `ret,is_active,n_columns,info.len,info.text,{pen},buffer`; fields the call did
+    not store keep the harness' presets (1, −77, 7777, U, the preset pen). -/
+def showSpanFields (g : SpanArgs) (ret : Int) (act : Option Bool) (nc il : Option Int) (textSet : Bool) (pen : Option Pen)
+    (bytes : List UInt8) (term : Bool) : String :=
+  let a := match act with | some false => "0" | _ => "1"
+  let tf := if textSet then (if g.buf then "B" else "N") else "U"
+  let p := if g.infoPen then showPen (pen.getD prefillPen) else "{NULL}"
+  s!"{ret},{a},{nc.getD (-77)},{il.getD 7777},{tf}," ++ p ++ "," ++ showBuffer (if g.buf then some g.len else none) bytes term
+
+def showGetspan (rb : RB) (l c : Int) (g : SpanArgs) : String :=
+  let o := getSpanQ spanCfg rb l c g.info g.infoPen g.buf g.len
+  showSpanFields g o.ret o.isActive o.nColumns o.len o.textSet o.pen o.bytes o.term
+
+open Tickit.RBAbs Tickit.Gen.RBWidth in
+/-- What `getcell` must answer, from the abstract state. -/
+def specGetcell (a : AState) (l c len : Int) : String :=
+  let L := l + a.xlLine
+  let C := c + a.xlCol
+  let buf : Option Nat := if len < 0 then none else some len.toNat
+  if !a.clip L C then "-1{NULL}0.0.0.0:-1:" ++ showBuffer buf [] false
+  else
+    let ct := a.content L C
+    let active := match ct with | .skip => "0" | _ => "1"
+    let pen := match contentPen ct with
+      | none => "{NULL}"
+      | some p => showPen p
+    let lm : Nat × Nat × Nat × Nat := match ct with
+      | .line _ m => ((m >>> c_NORTH_SHIFT) % 4, (m >>> c_SOUTH_SHIFT) % 4, (m >>> c_EAST_SHIFT) % 4, (m >>> c_WEST_SHIFT) % 4)
+      | _ => (0, 0, 0, 0)
+    -- one grapheme at the cell's column: the text of the cell (`contentText`, `Props.C03.get_cell_text_spec`)
+    let t := getSpanText ⟨true, true⟩ ⟨contentCell ct, 0⟩ true buf
+    active ++ pen ++ showLinemask lm ++ s!":{t.ret}:" ++ showBuffer buf t.bytes t.term
+
+/-- `ret,act,nc,il,tf,{pen},buffer` → the seven fields. -/
+def parseSpanFields (r : String) : Option (String × String × String × String × String × String × String) :=
+  match splitFirst r ",{" with
+  | none => none
+  | some (hd, rest) =>
+    match hd.splitOn ",", splitFirst rest "}," with
+    | [ret, act, nc, il, tf], some (pen, buffer) => some (ret, act, nc, il, tf, "{" ++ pen ++ "}", buffer)
+    | _, _ => none
+
+/-- SPEC verdict for `getspan`.  `tickit_renderbuffer_get_span` is an observation API no clause of C03 speaks about:
+    there is *no* verdict on what it answers (the model-vs-implementation comparison still sees every change of it;
+    `Props.C03.get_span_spec` / `get_span_found_counterexample` record how the answer relates to the abstract
+    content).  What the property's harness does demand of every call: the buffer stays well-formed and unchanged
+    (`specQuery`), the call returns (a sanitizer abort is an unparsable observation), and the caller's buffer is
+    reported back with exactly the length given (the harness allocates exactly `len` bytes, so a write beyond them
+    is an ASan abort). -/
+def specGetspan (g : SpanArgs) (r : String) : String :=
+  match parseSpanFields r with
+  | none => "unparsable get_span observation"
+  | some (_, _, _, _, _, _, buffer) =>
+    if g.buf then
+      (if buffer.length = (if g.len = 0 then 1 else 2 * g.len) then "" else s!"get_span: the {g.len}-byte buffer comes back as {buffer}")
+    else (if buffer = "x" then "" else s!"get_span without a buffer reports {buffer}")
+
+/-! ### Execution speed on wide buffers
+
+  `hlineAt`/`vlineAt` draw one cell after the other, each through `make_span`; on the function representation of
+  a row every cell adds a layer of closures.  Here the grid is re-tabulated every few cells (`RB.compact` is the
+  identity on the grid); the calls of `linecell` are those of `Tickit.RB.hlineAt` (same device as Driver/RBFlush). -/
+
+def lineLoopC (cellAt : Int → Int × Int) (bits : Nat) (rb : RB) (from_ : Int) : Nat → RB
+  | 0 => rb
+  | n + 1 =>
+    let rb' := linecell rb (cellAt from_).1 (cellAt from_).2 bits
+    lineLoopC cellAt bits (if n % 8 = 0 then rb'.compact else rb') (from_ + 1) n
+
+open Tickit.Gen.RBWidth in
+def hlineAtC (rb : RB) (line startcol endcol : Int) (style caps : Nat) : RB :=
+  let east := style <<< c_EAST_SHIFT
+  let west := style <<< c_WEST_SHIFT
+  let rb := linecell rb line startcol (east ||| (if caps &&& c_TICKIT_LINECAP_START ≠ 0 then west else 0))
+  let rb := lineLoopC (fun col => (line, col)) (east ||| west) rb (startcol + 1) (endcol - 1 - startcol).toNat
+  linecell rb line endcol ((if caps &&& c_TICKIT_LINECAP_END ≠ 0 then east else 0) ||| west)
+
+open Tickit.Gen.RBWidth in
+def vlineAtC (rb : RB) (startline endline col : Int) (style caps : Nat) : RB :=
+  let north := style <<< c_NORTH_SHIFT
+  let south := style <<< c_SOUTH_SHIFT
+  let rb := linecell rb startline col (south ||| (if caps &&& c_TICKIT_LINECAP_START ≠ 0 then north else 0))
+  let rb := lineLoopC (fun line => (line, col)) (south ||| north) rb (startline + 1) (endline - 1 - startline).toNat
+  linecell rb endline col ((if caps &&& c_TICKIT_LINECAP_END ≠ 0 then south else 0) ||| north)
+
+/-- `RB.step` with the grid re-tabulated inside the long loops. -/
+def stepC (rb : RB) : Op → RB
+  | .hlineAt l c1 c2 st caps => hlineAtC rb l c1 c2 st caps
+  | .vlineAt l1 l2 c st caps => vlineAtC rb l1 l2 c st caps
+  | o => RB.step rb o
+
+/-- `put_text(…, text, len)`: `len = -1` is `strlen(text)`, otherwise the first `len` bytes (the harness refuses
+    a `len` beyond the bytes given). -/
+def textnBytes (n : Int) (bs : List UInt8) : Option (List UInt8) :=
+  if n = -1 then some (bs.takeWhile (· ≠ 0))
+  else if 0 ≤ n ∧ n.toNat ≤ bs.length then some (bs.take n.toNat)
+  else none
+
+/-- The formatted-text entry points (`textf_at`, `vtextf_at`: format "%s"; `textfd_at`: "%s%d"; the same without
+    `_at` at the virtual cursor): where, and the formatted result (what libc's `vsnprintf` produces). -/
+def parseFmt (op : String) (args : List String) : Option (Option (Int × Int) × List UInt8) :=
+  let cstr (h : String) : Option (List UInt8) := (hexBytes? h).map fun b => b.takeWhile (· ≠ 0)
+  let dec (n : String) : Option (List UInt8) := (int? n).map fun v => (toString v).toUTF8.toList
+  match op, args with
+  | "textf_at", [l, c, h] => do pure (some (← int? l, ← int? c), ← cstr h)
+  | "vtextf_at", [l, c, h] => do pure (some (← int? l, ← int? c), ← cstr h)
+  | "textfd_at", [l, c, h, n] => do pure (some (← int? l, ← int? c), (← cstr h) ++ (← dec n))
+  | "textf", [h] => do pure (none, ← cstr h)
+  | "vtextf", [h] => do pure (none, ← cstr h)
+  | "textfd", [h, n] => do pure (none, (← cstr h) ++ (← dec n))
+  | _, _ => none
+
 /-- A protocol line as an operation of the model (`none`: a query or not an operation). -/
 def parseOp (op : String) (args : List String) : Option Op :=
   let ia := ints? args
   match op, args, ia with
   | "text_at", [l, c, h], _ => do pure (.textAt (← int? l) (← int? c) (← hexBytes? h))
+  -- (`textf_at`/`textf` with "%s": kept here for the drivers of C04/C13, which reuse this parser; this engine's own
+  --  `step` sends the formatted entry points through `parseFmt` and the `put_vtextf` model first)
   | "textf_at", [l, c, h], _ => do pure (.textAt (← int? l) (← int? c) ((← hexBytes? h).takeWhile (· ≠ 0)))   -- "%s" stops at NUL
-  | "text", [h], _ => do pure (.text (← hexBytes? h))
   | "textf", [h], _ => do pure (.text ((← hexBytes? h).takeWhile (· ≠ 0)))
+  | "textz_at", [l, c, h], _ => do pure (.textAt (← int? l) (← int? c) ((← hexBytes? h).takeWhile (· ≠ 0)))   -- strlen
+  | "textn_at", [l, c, n, h], _ => do pure (.textAt (← int? l) (← int? c) (← textnBytes (← int? n) (← hexBytes? h)))
+  | "text", [h], _ => do pure (.text (← hexBytes? h))
+  | "textz", [h], _ => do pure (.text ((← hexBytes? h).takeWhile (· ≠ 0)))
+  | "textn", [n, h], _ => do pure (.text (← textnBytes (← int? n) (← hexBytes? h)))
   | "erase_at", _, some [l, c, n] => some (.eraseAt l c n)
   | "erase", _, some [n] => some (.erase n)
   | "erase_to", _, some [c] => some (.eraseTo c)
@@ -420,6 +576,27 @@ def specVerdict (a' : AState) (wantRet : Option String) (impl : String) : String
         | none => ""
 
 open Tickit.RBAbs in
+/-- SPEC verdict of a query: the state must be unchanged, and `check` judges the `r=` part (given the dump). -/
+def specQuery (a : AState) (impl : String) (check : String → RB → String) : String :=
+  match parseObs impl with
+  | none => "unparsable implementation observation"
+  | some (r, irb) =>
+    let w := wfCheck irb
+    if w ≠ "" then w
+    else
+      let c := specCompare a irb
+      if c ≠ "" then c else check r irb
+
+open Tickit.RBAbs in
+/-- One state-changing operation: `o` is what the code executes, `oSpec` what the specification is asked. -/
+def stepOp (st : St) (rb : RB) (a : AState) (o oSpec : Op) (tmpsize : Nat) (impl : String) : St × String × String :=
+  let rb' := (stepC rb o).compact
+  -- the abstract state is re-tabulated too (execution speed only)
+  let a' := compactAbs (RBAbs.step a oSpec)
+  -- where the property is silent (cursor after a rejected text) the specification follows the implementation
+  ({ rb := some rb', abs := some a', tmpsize := tmpsize }, modelRet rb o ++ " " ++ showRB rb', specVerdict a' (specRet a oSpec) impl)
+
+open Tickit.RBAbs in
 def step (st : St) (ts : List String) (impl : String) : St × String × String :=
   match ts with
   | ["new", l, c] =>
@@ -427,13 +604,13 @@ def step (st : St) (ts : List String) (impl : String) : St × String × String :
     | some l, some c =>
       let rb := (RB.new l c garbage garbage).compact
       let a := AState.new l c
-      ({ rb := some rb, abs := some a }, "r=- " ++ showRB rb, specVerdict a (some "-") impl)
+      ({ rb := some rb, abs := some a, tmpsize := Gen.RBSpan.c_TMPSIZE_INIT }, "r=- " ++ showRB rb, specVerdict a (some "-") impl)
     | _, _ => (st, "bad-op", "")
   | op :: args =>
     match st.rb, st.abs with
     | some rb, some a =>
-      match op, args with
-      | "getcur", [] =>
+      match op, args, ints? args with
+      | "getcur", [], _ =>
         let r := match getCursor rb with
           | some (l, c) => s!"r=1,{l},{c}"
           | none => "r=0,-77,-77"
@@ -441,18 +618,35 @@ def step (st : St) (ts : List String) (impl : String) : St × String × String :
           | some (l, c) => s!"1,{l},{c}"
           | none => "0,-77,-77"
         (st, r ++ " " ++ showRB rb, specVerdict a (some want) impl)
-      | "getcells", [] =>
+      | "getcells", [], _ =>
         (st, "r=" ++ showCells rb ++ " " ++ showRB rb, specVerdict a (some (specCells a)) impl)
-      | _, _ =>
-        match parseOp op args with
-        | none => (st, "bad-op", "")
-        | some o =>
-          let rb' := (RB.step rb o).compact
-          let a' := RBAbs.step a o
-          -- the abstract state is re-tabulated too (execution speed only)
-          let a' := compactAbs a'
-          -- where the property is silent (cursor after a rejected text) the specification follows the implementation
-          ({ rb := some rb', abs := some a' }, modelRet rb o ++ " " ++ showRB rb', specVerdict a' (specRet a o) impl)
+      | "getcell", _, some [l, c, len] =>
+        if len < -1 ∨ len > 65536 then (st, "bad-op", "") else
+        (st, "r=" ++ showGetcell rb l c len ++ " " ++ showRB rb, specVerdict a (some (specGetcell a l c len)) impl)
+      | "getspan", _, some [l, c, len, mode] =>
+        if len < 0 ∨ len > 65536 ∨ mode < 0 ∨ mode > 7 then (st, "bad-op", "") else
+        let g := spanArgs len.toNat mode.toNat
+        (st, "r=" ++ showGetspan rb l c g ++ " " ++ showRB rb, specQuery a impl fun r _ => specGetspan g r)
+      | _, _, _ =>
+        match parseFmt op args with
+        | some (pos, s) =>
+          -- the specification is asked about the formatted result; the code goes through `put_vtextf`
+          let oSpec : Op := match pos with
+            | some (l, c) => .textAt l c s
+            | none => .text s
+          if pos.isNone ∧ !rb.vcSet then stepOp st rb a oSpec oSpec st.tmpsize impl     -- `vtextf` returns before formatting
+          else
+            match vtextf st.tmpsize s with
+            | none => ({ st with rb := none, abs := none }, "CRASH put_text reads past the scratch area", "")
+            | some (s', tmpsize) =>
+              let o : Op := match pos with
+                | some (l, c) => .textAt l c s'
+                | none => .text s'
+              stepOp st rb a o oSpec tmpsize impl
+        | none =>
+          match parseOp op args with
+          | none => (st, "bad-op", "")
+          | some o => stepOp st rb a o o st.tmpsize impl
     | _, _ => (st, "bad-op", "")
   | [] => (st, "bad-op", "")
 
